@@ -10,7 +10,10 @@ RULE = (
     "peer / insert of a new peer / close of a registered peer raises the wake count; (no lost wake-up) after the "
     "final drain nothing deliverable is left on a registered peer; (bounded bypass) while a registered peer i has "
     "an undelivered item, no other peer is delivered more than once before i. Non-trivial: some poll returned "
-    "Pending and a later one Ready, or two peers had items queued simultaneously."
+    "Pending and a later one Ready, or two peers had items queued simultaneously. Budget families (finding D17): the "
+    "op `exhaust` (top level, or inside a stream's poll) makes every stream poll wake itself and return Pending until "
+    "the call returns, as tokio's cooperative budget does; the call must return (the harness reports LIVELOCK after "
+    "20000 stream polls within one call), with the receiver woken, and the re-polls must deliver everything."
 )
 ASSUMPTIONS = [
     "stream wakers follow the kernel-socket discipline (a Pending poll arms one waker, readiness fires and consumes it); the bypass bound is claimed under it only",
@@ -24,6 +27,8 @@ def cases(tier, rng):
     out += list(fqgen.exhaustive(2, 5 if tier == "quick" else 6, "exh2"))
     out += list(fqgen.exhaustive(3, 4 if tier == "quick" else 5, "exh3"))
     out += list(fqgen.windows("window", tier != "quick"))
+    out += list(fqgen.exhaustive(2, 4 if tier == "quick" else 5, "exh2-budget", extra=["exhaust"]))
+    out += list(fqgen.exhaust_cases(rng, 300 if tier == "quick" else 4000, "budget"))
     out += list(fqgen.random_cases(rng, 1500 if tier == "quick" else 20000, "random"))
     # heavy-traffic fairness: one chatty peer with a deep backlog, others with one item each
     for i in range(60 if tier == "quick" else 600):
@@ -43,8 +48,13 @@ def cases(tier, rng):
 def oracle(case, lines):
     if any(l.startswith(("PANIC", "ABORT", "TIMEOUT")) for l in lines):
         return "the fair queue panicked"
+    for op, l in zip(case.ops, lines[1:]):
+        if l.startswith("LIVELOCK"):
+            return ("poll_next never returned: with the executor's budget exhausted (every stream poll wakes itself and "
+                    f"returns Pending) the receiver re-polled its streams {l.split('>')[-1]}+ times within ONE call")
     a = fqgen.analyse(case, lines)
     win = a["windowed"]
+    last_wk = 0
     # replay bookkeeping in op order
     inserted, removed, closed = set(), set(), set()
     pend = {}  # arrived but not delivered, per key
@@ -54,6 +64,7 @@ def oracle(case, lines):
     for idx, (op, l) in enumerate(zip(case.ops, lines[1:])):
         w = op.split()
         wk = int(l.rsplit("wakes=", 1)[1]) if "wakes=" in l else None
+        wk_before, last_wk = last_wk, (wk if wk is not None else last_wk)
         if w[0] == "window":
             continue
         k = int(w[1]) if len(w) > 1 else None
@@ -82,7 +93,9 @@ def oracle(case, lines):
             continue
         # a poll
         p = l.split()
-        if p[0] == "pending":
+        if p[0] == "pending" and wk is not None and wk > wk_before:
+            pending_wakes = None  # woken during the call itself (it yielded): it is notified, not waiting
+        elif p[0] == "pending":
             pending_wakes = wk
         else:
             pending_wakes = None
@@ -117,4 +130,6 @@ def nontrivial(case, lines):
 
 
 def signature(case, ml, il, o):
+    if any(l.startswith("LIVELOCK") for l in (il or [])):
+        return "budget-livelock"
     return case.name.split("#")[0]
